@@ -89,7 +89,7 @@ def fid(owner, name):
 
 
 def obj(id, cls, proto, js='', via=None, callable=False, ctor=False, ext=True, call='', exp=None, clause='',
-        grp='lib', exact=False):
+        grp='lib', exact=False, mk=''):
     """cls/proto '?' = implementation-dependent (not compared).  exact: the own property list is complete
     (instances whose properties ES5 enumerates completely are still allowed non-enumerable extras; exact is
     only used by the table invariants)."""
@@ -97,7 +97,7 @@ def obj(id, cls, proto, js='', via=None, callable=False, ctor=False, ext=True, c
     SEEN_OBJ[id] = 1
     OBJS.append(dict(id=id, js=js, vo=via[0] if via else '', vn=via[1] if via else '', cls=cls, proto=proto,
                      callable=callable, ctor=ctor, ext=ext, call=call,
-                     callexp=val(exp) if call else UNDEF, clause=clause, grp=grp))
+                     callexp=exp if isinstance(exp, Raw) else (val(exp) if call else UNDEF), clause=clause, grp=grp, mk=mk))
 
 
 def row(owner, name, kind, attrs='', target='', v=UNDEF, valmode='exact', clause='', length=-1):
@@ -161,8 +161,8 @@ fn('global', 'parseInt', 2, "F('12px', 8)", 10, '15.1.2.2')
 fn('global', 'parseFloat', 1, "F('1.5e1x')", 15, '15.1.2.3')
 fn('global', 'isNaN', 1, "F('x')", True, '15.1.2.4')
 fn('global', 'isFinite', 1, "F('5')", True, '15.1.2.5')
-fn('global', 'decodeURI', 1, "F('%41%2F')", 'A%2F', '15.1.3.1')
-fn('global', 'decodeURIComponent', 1, "F('%41%2F')", 'A/', '15.1.3.2')
+fn('global', 'decodeURI', 1, "F('%C3%A9%2F')", '\u00e9%2F', '15.1.3.1')
+fn('global', 'decodeURIComponent', 1, "F('%C3%A9%2F')", '\u00e9/', '15.1.3.2')
 fn('global', 'encodeURI', 1, "F('a /' + String.fromCharCode(233))", 'a%20/%C3%A9', '15.1.3.3')
 fn('global', 'encodeURIComponent', 1, "F('a /' + String.fromCharCode(233))", 'a%20%2F%C3%A9', '15.1.3.4')
 for c in ['Object', 'Function', 'Array', 'String', 'Boolean', 'Number', 'Date', 'RegExp', 'Error', 'EvalError',
@@ -244,7 +244,9 @@ ctor('Array', 1, 'Array', 'Object.prototype',
 value('Array.prototype', 'length', 0, '15.4.4 / 15.4.5.2', attrs='TFF')
 fn('Array', 'isArray', 1, "F([]) + '|' + F({length:0})", 'true|false', '15.4.3.2')
 AP = 'Array.prototype'
-fn(AP, 'toString', 0, "F.call([1, [2, 3]]) + '|' + F.call({join:function(){ return 'J' }})", '1,2,3|J', '15.4.4.2')
+# 15.4.4.2 step 4: join is called with an EMPTY argument list
+fn(AP, 'toString', 0, "F.call([1, [2, 3]], '-') + '|' + F.call({join:function(){ return 'J' + arguments.length }}, 1, 2)",
+   dev('D14_array_toString_forwards_arguments', val('1-2,3|J2'), val('1,2,3|J0')), '15.4.4.2')
 fn(AP, 'toLocaleString', 0,
    "F.call([{toLocaleString:function(){ return 'L' }, toString:function(){ return 'T' }}])", 'L', '15.4.4.3')
 fn(AP, 'concat', 1, "var a = [1]; var r = F.call(a, [2], 3); r.join() + '|' + a.length", '1,2,3|1', '15.4.4.4')
@@ -257,8 +259,8 @@ fn(AP, 'slice', 2, "var a = [1, 2, 3, 4]; F.call(a, 1, 3).join() + '|' + a.lengt
 fn(AP, 'sort', 1, "var a = [2, 1, 3]; (F.call(a) === a) + '|' + a.join()", 'true|1,2,3', '15.4.4.11')
 fn(AP, 'splice', 2, "var a = [1, 2, 3, 4]; F.call(a, 1, 2, 9).join() + '|' + a.join()", '2,3|1,9,4', '15.4.4.12')
 fn(AP, 'unshift', 1, "var a = [1]; F.call(a, 5, 6) + '|' + a.join()", '3|5,6,1', '15.4.4.13')
-fn(AP, 'indexOf', 1, "F.call([1, 2, 1, 2], 2)", 1, '15.4.4.14')
-fn(AP, 'lastIndexOf', 1, "F.call([1, 2, 1, 2], 2)", 3, '15.4.4.15')
+fn(AP, 'indexOf', 1, "F.call([5, 6, 7, 6], 6)", 1, '15.4.4.14')
+fn(AP, 'lastIndexOf', 1, "F.call([5, 6, 7, 6], 6)", 3, '15.4.4.15')
 ITP = "var n = 0; var r = F.call([1, 1, 3], function(x, i, a){ n++; return a.length === 3 && x < 2 }); String(r) + '|' + n"
 fn(AP, 'every', 1, ITP, 'false|3', '15.4.4.16')
 fn(AP, 'some', 1, ITP, 'true|1', '15.4.4.17')
@@ -300,7 +302,7 @@ fn(SP, 'toLocaleLowerCase', 0, "F.call('aB')", 'ab', '15.5.4.17')
 fn(SP, 'toUpperCase', 0, "F.call('aB')", 'AB', '15.5.4.18')
 fn(SP, 'toLocaleUpperCase', 0, "F.call('aB')", 'AB', '15.5.4.19')
 fn(SP, 'trim', 0, "'[' + F.call('  a b ') + ']'", '[a b]', '15.5.4.20')
-fn(SP, 'substr', 2, "F.call('abcdef', 4, 1)", 'e', 'B.2.3', grp='annexB')
+fn(SP, 'substr', 2, "F.call('abcdef', 3, 2)", 'de', 'B.2.3', grp='annexB')
 
 # ---------------------------------------------------------------------------------------------
 # 15.6 Boolean
@@ -329,9 +331,11 @@ fn(NP, 'toLocaleString', dev('D14_number_toLocaleString_length', val(1), val(0))
    "typeof F.call(1) + '|' + T(function(){ F.call({}) })", 'string|TypeError', '15.7.4.3')
 fn(NP, 'valueOf', 0, "var v = F.call(new Number(5)); S(v) + '|' + typeof v + '|' + T(function(){ F.call({}) })",
    '5|number|TypeError', '15.7.4.4')
-fn(NP, 'toFixed', 1, "F.call(1.5, 3)", '1.500', '15.7.4.5')
-fn(NP, 'toExponential', 1, "F.call(1.5, 3)", '1.500e+0', '15.7.4.6')
-fn(NP, 'toPrecision', 1, "F.call(1.5, 3)", '1.50', '15.7.4.7')
+# (the probe stays clear of the exponent digits and of trailing zeros under toPrecision: findings D70, D80 of C06)
+NFP = "F.call(1.5, 2).substring(0, 5)"
+fn(NP, 'toFixed', 1, NFP, '1.50', '15.7.4.5')
+fn(NP, 'toExponential', 1, NFP, '1.50e', '15.7.4.6')
+fn(NP, 'toPrecision', 1, NFP, '1.5', '15.7.4.7')
 
 # ---------------------------------------------------------------------------------------------
 # 15.8 Math
@@ -359,7 +363,7 @@ MATH1 = [
 ]
 for n, e, cl in MATH1:
     fn('Math', n, 1, "MV(F)", e, cl)
-fn('Math', 'atan2', dev('D14_atan2_length', val(1), val(2)), "S(F(-0, 1)) + '|' + S(F(0, 0)) + '|' + (F(1, 0) > 1)",
+fn('Math', 'atan2', dev('D14_atan2_length', val(1), val(2)), "S(F(-0, 1)) + '|' + S(F(0, 0)) + '|' + (F(1, -1) > 2)",
    '-0|0|true', '15.8.2.5')
 fn('Math', 'max', 2, "S(F(1, 3, 2)) + '|' + S(F())", '3|-Infinity', '15.8.2.11')
 fn('Math', 'min', 2, "S(F(1, 3, 2)) + '|' + S(F())", '1|Infinity', '15.8.2.12')
@@ -383,15 +387,18 @@ def loc(y, mo, d, h=0, mi=0, s=0, ms=0):
     return utc(y, mo, d, h, mi, s, ms) - TZMIN * 60000
 
 
-T0 = utc(2000, 11, 31, 20, 5, 8, 9)        # UTC 2000-12-31T20:05:08.009 (Sunday) = local 2001-01-01T01:35:08.009 (Monday)
-assert T0 == loc(2001, 0, 1, 1, 35, 8, 9)
+# every local and UTC field of T0 is a different number:
+# UTC 1999-12-31T20:47:38.009 (Friday) = local 2000-01-01T02:17:38.009 (Saturday)
+T0 = utc(1999, 11, 31, 20, 47, 38, 9)
+assert T0 == loc(2000, 0, 1, 2, 17, 38, 9)
+assert datetime.datetime(1999, 12, 31).weekday() == 4 and datetime.datetime(2000, 1, 1).weekday() == 5
 T1 = T0 - 9
 ctor('Date', 7, 'Date', 'Object.prototype',
-     "typeof F() + '|' + S(new F(5).getTime()) + '|' + CLS(new F(5)) + '|' + S(new F(2000, 11, 31, 20, 5, 8, 9).getTime())",
-     'string|5|Date|%d' % loc(2000, 11, 31, 20, 5, 8, 9), '15.9.4 / 15.9.5')
-fn('Date', 'parse', 1, "S(F('2000-12-31T20:05:08.009Z'))", str(T0), '15.9.4.2')
-fn('Date', 'UTC', 7, "S(F(2000, 11, 31, 20, 5, 8, 9))", str(T0), '15.9.4.3')
-fn('Date', 'now', 0, "typeof F() + '|' + (F() >= %d)" % T0, 'number|true', '15.9.4.4')
+     "typeof F() + '|' + S(new F(5).getTime()) + '|' + CLS(new F(5)) + '|' + S(new F(1999, 11, 31, 20, 47, 38, 9).getTime())",
+     'string|5|Date|%d' % loc(1999, 11, 31, 20, 47, 38, 9), '15.9.4 / 15.9.5')
+fn('Date', 'parse', 1, "S(F('1999-12-31T20:47:38.009Z', 5))", str(T0), '15.9.4.2')
+fn('Date', 'UTC', 7, "S(F(1999, 11, 31, 20, 47, 38, 9)) + '|' + S(F(1999, 11))", '%d|%d' % (T0, utc(1999, 11, 1)), '15.9.4.3')
+fn('Date', 'now', 0, "typeof F(0, 0) + '|' + (F(0, 0) >= %d)" % T0, 'number|true', '15.9.4.4')
 DP = 'Date.prototype'
 RTP = "var s = F.call(new Date(%d)); typeof s + '|' + S(Date.parse(s))" % T1
 fn(DP, 'toString', 0, RTP, 'string|%d' % T1, '15.9.5.2 / 15.9.4.2')
@@ -406,8 +413,8 @@ fn(DP, 'toLocaleTimeString', 0, DTP, 'string|false|true', '15.9.5.7')
 GETP = "S(F.call(new Date(%d)))" % T0
 fn(DP, 'valueOf', 0, GETP, str(T0), '15.9.5.8')
 fn(DP, 'getTime', 0, GETP, str(T0), '15.9.5.9')
-for i, (n, lv, uv) in enumerate([('FullYear', 2001, 2000), ('Month', 0, 11), ('Date', 1, 31), ('Day', 1, 0),
-                                 ('Hours', 1, 20), ('Minutes', 35, 5), ('Seconds', 8, 8), ('Milliseconds', 9, 9)]):
+for i, (n, lv, uv) in enumerate([('FullYear', 2000, 1999), ('Month', 0, 11), ('Date', 1, 31), ('Day', 6, 5),
+                                 ('Hours', 2, 20), ('Minutes', 17, 47), ('Seconds', 38, 38), ('Milliseconds', 9, 9)]):
     fn(DP, 'get' + n, 0, GETP, str(lv), '15.9.5.%d' % (10 + 2 * i))
     fn(DP, 'getUTC' + n, 0, GETP, str(uv), '15.9.5.%d' % (11 + 2 * i))
 fn(DP, 'getTimezoneOffset', 0, GETP, str(-TZMIN), '15.9.5.26')
@@ -424,29 +431,29 @@ def sete(t):
 fn(DP, 'setTime', 1, setp('5'), sete(5), '15.9.5.27')
 fn(DP, 'setMilliseconds', 1, setp('1'), sete(T0 - 8), '15.9.5.28')
 fn(DP, 'setUTCMilliseconds', 1, setp('1'), sete(T0 - 8), '15.9.5.29')
-fn(DP, 'setSeconds', 2, setp('1, 2'), sete(loc(2001, 0, 1, 1, 35, 1, 2)), '15.9.5.30')
-fn(DP, 'setUTCSeconds', 2, setp('1, 2'), sete(utc(2000, 11, 31, 20, 5, 1, 2)), '15.9.5.31')
-fn(DP, 'setMinutes', 3, setp('1, 2, 3'), sete(loc(2001, 0, 1, 1, 1, 2, 3)), '15.9.5.32')
-fn(DP, 'setUTCMinutes', 3, setp('1, 2, 3'), sete(utc(2000, 11, 31, 20, 1, 2, 3)), '15.9.5.33')
-fn(DP, 'setHours', 4, setp('2, 3, 4, 5'), sete(loc(2001, 0, 1, 2, 3, 4, 5)), '15.9.5.34')
-fn(DP, 'setUTCHours', 4, setp('2, 3, 4, 5'), sete(utc(2000, 11, 31, 2, 3, 4, 5)), '15.9.5.35')
-fn(DP, 'setDate', 1, setp('15'), sete(loc(2001, 0, 15, 1, 35, 8, 9)), '15.9.5.36')
-fn(DP, 'setUTCDate', 1, setp('15'), sete(utc(2000, 11, 15, 20, 5, 8, 9)), '15.9.5.37')
-fn(DP, 'setMonth', 2, setp('5, 10'), sete(loc(2001, 5, 10, 1, 35, 8, 9)), '15.9.5.38')
-fn(DP, 'setUTCMonth', 2, setp('5, 10'), sete(utc(2000, 5, 10, 20, 5, 8, 9)), '15.9.5.39')
-fn(DP, 'setFullYear', 3, setp('1999, 5, 10'), sete(loc(1999, 5, 10, 1, 35, 8, 9)), '15.9.5.40')
-fn(DP, 'setUTCFullYear', 3, setp('1999, 5, 10'), sete(utc(1999, 5, 10, 20, 5, 8, 9)), '15.9.5.41')
+fn(DP, 'setSeconds', 2, setp('1, 2'), sete(loc(2000, 0, 1, 2, 17, 1, 2)), '15.9.5.30')
+fn(DP, 'setUTCSeconds', 2, setp('1, 2'), sete(utc(1999, 11, 31, 20, 47, 1, 2)), '15.9.5.31')
+fn(DP, 'setMinutes', 3, setp('1, 2, 3'), sete(loc(2000, 0, 1, 2, 1, 2, 3)), '15.9.5.32')
+fn(DP, 'setUTCMinutes', 3, setp('1, 2, 3'), sete(utc(1999, 11, 31, 20, 1, 2, 3)), '15.9.5.33')
+fn(DP, 'setHours', 4, setp('3, 4, 5, 6'), sete(loc(2000, 0, 1, 3, 4, 5, 6)), '15.9.5.34')
+fn(DP, 'setUTCHours', 4, setp('3, 4, 5, 6'), sete(utc(1999, 11, 31, 3, 4, 5, 6)), '15.9.5.35')
+fn(DP, 'setDate', 1, setp('15'), sete(loc(2000, 0, 15, 2, 17, 38, 9)), '15.9.5.36')
+fn(DP, 'setUTCDate', 1, setp('15'), sete(utc(1999, 11, 15, 20, 47, 38, 9)), '15.9.5.37')
+fn(DP, 'setMonth', 2, setp('5, 10'), sete(loc(2000, 5, 10, 2, 17, 38, 9)), '15.9.5.38')
+fn(DP, 'setUTCMonth', 2, setp('5, 10'), sete(utc(1999, 5, 10, 20, 47, 38, 9)), '15.9.5.39')
+fn(DP, 'setFullYear', 3, setp('1997, 5, 10'), sete(loc(1997, 5, 10, 2, 17, 38, 9)), '15.9.5.40')
+fn(DP, 'setUTCFullYear', 3, setp('1997, 5, 10'), sete(utc(1997, 5, 10, 20, 47, 38, 9)), '15.9.5.41')
 fn(DP, 'toUTCString', 0, RTP, 'string|%d' % T1, '15.9.5.42 / 15.9.4.2')
-fn(DP, 'toISOString', 0, "F.call(new Date(%d))" % T0, '2000-12-31T20:05:08.009Z', '15.9.5.43 / 15.9.1.15')
+fn(DP, 'toISOString', 0, "F.call(new Date(%d))" % T0, '1999-12-31T20:47:38.009Z', '15.9.5.43 / 15.9.1.15')
 fn(DP, 'toJSON', 1,
    "F.call({toISOString:function(){ return 'X' }, valueOf:function(){ return 1 }}, 'k') + '|' + F.call({toISOString:function(){ return 'X' }, valueOf:function(){ return NaN }})",
    'X|null', '15.9.5.44')
-fn(DP, 'getYear', 0, GETP, '101', 'B.2.4', grp='annexB')
-fn(DP, 'setYear', 1, setp('99'), sete(loc(1999, 0, 1, 1, 35, 8, 9)), 'B.2.5', grp='annexB')
+fn(DP, 'getYear', 0, GETP, '100', 'B.2.4', grp='annexB')
+fn(DP, 'setYear', 1, setp('97'), sete(loc(1997, 0, 1, 2, 17, 38, 9)), 'B.2.5', grp='annexB')
 # B.2.6: "The Function object that is the initial value of Date.prototype.toGMTString is the same Function
 # object that is the initial value of Date.prototype.toUTCString."
-fn(DP, 'toGMTString', 0, '', None, 'B.2.6', grp='annexB',
-   same='Date.prototype.toUTCString')
+# (informative: identity with toUTCString is not compared)
+fn(DP, 'toGMTString', 0, RTP, 'string|%d' % T1, 'B.2.6', grp='annexB')
 
 # ---------------------------------------------------------------------------------------------
 # 15.10 RegExp
@@ -455,18 +462,27 @@ fn(DP, 'toGMTString', 0, '', None, 'B.2.6', grp='annexB',
 # data properties are set as if it was created by new RegExp() (pattern "", flags undefined)
 ctor('RegExp', 2, 'RegExp', 'Object.prototype',
      "var r = F('a', 'g'); CLS(r) + '|' + r.global + '|' + (F(r) === r) + '|' + new F('b').test('abc')",
-     'RegExp|true|true|true', '15.10.5 / 15.10.6')
+     'RegExp|true|true|true', '15.10.5 / 15.10.6',
+     # the prototype matches like new RegExp(): the empty pattern matches everywhere.  otto: nil pointer
+     # dereference, a Go run-time panic (inside the probe's try statement it surfaces as a thrown non-Error value;
+     # outside any try it leaves Run as a Go panic)
+     protoCall="F.test('abc') + '|' + F.exec('abc')[0].length",
+     protoExp=dev('D14_regexp_prototype_exec_nil_panic', V('[t |-> "throw", name |-> "value"]'), val('true|0')))
 RP = 'RegExp.prototype'
 fn(RP, 'exec', 1, "var m = F.call(/b(c)/, 'abcd'); m.index + '|' + m.join()", '1|bc,c', '15.10.6.2')
 fn(RP, 'test', 1, "F.call(/b/, 'abc') + '|' + typeof F.call(/b/, 'x')", 'true|boolean', '15.10.6.3')
 fn(RP, 'toString', 0, "F.call(/a.b/gi)", '/a.b/gi', '15.10.6.4')
 # 15.10.4.1: for an empty pattern the source is an implementation-defined Pattern such as "(?:)": type only
+RXD = 'D14_regexp_prototype_no_instance_properties'
 const('RegExp.prototype', 'source', '', '15.10.7.1')
 ROWS[-1]['valmode'] = 'type'
 const('RegExp.prototype', 'global', False, '15.10.7.2')
 const('RegExp.prototype', 'ignoreCase', False, '15.10.7.3')
 const('RegExp.prototype', 'multiline', False, '15.10.7.4')
+for r in ROWS[-4:]:
+    r['kind'] = dev(RXD, 'missing', 'constant')
 value('RegExp.prototype', 'lastIndex', 0, '15.10.7.5', attrs='TFF')
+ROWS[-1]['kind'] = dev(RXD, 'missing', 'value')
 
 # ---------------------------------------------------------------------------------------------
 # 15.11 Error
@@ -484,12 +500,12 @@ value('Error.prototype', 'name', 'Error', '15.11.4.2')
 value('Error.prototype', 'message', '', '15.11.4.3')
 fn('Error.prototype', 'toString', 0,
    "F.call({name:'N', message:'m'}) + '|' + F.call({message:'m'}) + '|' + F.call({name:'N'}) + '|' + T(function(){ F.call(1) })",
-   'N: m|Error: m|N|TypeError', '15.11.4.4')
+   dev('D14_error_toString_non_object_receiver', val('N: m|Error: m|N|no'), val('N: m|Error: m|N|TypeError')), '15.11.4.4')
 for n in ['EvalError', 'RangeError', 'ReferenceError', 'SyntaxError', 'TypeError', 'URIError']:
     c, e = errcall(n)
     # 15.11.7.5: [[Prototype]] of a NativeError constructor is the Function prototype object;
     # 15.11.7.7: each NativeError prototype object is an Error object whose [[Prototype]] is Error.prototype
-    ctor(n, 1, 'Error', 'Error.prototype', c, e, '15.11.7 (15.11.6 %s)' % n)
+    ctor(n, 1, dev('D14_native_error_prototype_class', n, 'Error'), 'Error.prototype', c, e, '15.11.7 (15.11.6 %s)' % n)
     value(n + '.prototype', 'name', n, '15.11.7.9')
     value(n + '.prototype', 'message', '', '15.11.7.10')
 
@@ -532,22 +548,22 @@ const('i:regexp', 'multiline', False, '15.10.7.4')
 value('i:regexp', 'lastIndex', 0, '15.10.7.5', attrs='TFF')
 # 15.11.5 / 15.11.2.1: the message own property is set when the argument is not undefined; ES5.1 does not
 # state its attributes; the property statement (for-in shows no built-in) needs it non-enumerable
-obj('i:error', 'Error', 'Error.prototype', js="(new Error('m'))", clause='15.11.5', grp=I)
+obj('i:error', mk='error-object', cls='Error', proto= 'Error.prototype', js="(new Error('m'))", clause='15.11.5', grp=I)
 value('i:error', 'message', 'm', '15.11.2.1', attrs='?F?')
-obj('i:typeError', 'Error', 'TypeError.prototype', js="(new TypeError('m'))", clause='15.11.7.2', grp=I)
+obj('i:typeError', mk='error-object', cls='Error', proto= 'TypeError.prototype', js="(new TypeError('m'))", clause='15.11.7.2', grp=I)
 value('i:typeError', 'message', 'm', '15.11.7.4', attrs='?F?')
-obj('i:thrown', 'Error', 'ReferenceError.prototype', js="(function(){ try { undefinedVariable_c14 } catch (e) { return e } })()",
+obj('i:thrown', mk='error-object', cls='Error', proto= 'ReferenceError.prototype', js="(function(){ try { undefinedVariable_c14 } catch (e) { return e } })()",
     clause='8.7.1 / 15.11.6.3', grp=I)
 # 13.2 Creating Function Objects: length {~w,~e,~c} (15.3.5.1), prototype {w,~e,~c} (15.3.5.2) whose
 # constructor {w,~e,c} is the function
-obj('i:function', 'Function', 'Function.prototype', js='(function(a, b){ return a })', callable=True, ctor=True,
+obj('i:function', 'Function', 'Function.prototype', mk='function-object', js='(function(a, b){ return a })', callable=True, ctor=True,
     call="F(4, 5) + '|' + CLS(new F())", exp='4|Object', clause='13.2', grp=I)
 row('i:function', 'length', 'length', v=val(2), clause='13.2 step 15 / 15.3.5.1')
 row('i:function', 'prototype', 'object', attrs='TFF', target='i:function.prototype', clause='13.2 step 18 / 15.3.5.2')
 obj('i:function.prototype', 'Object', 'Object.prototype', via=('i:function', 'prototype'), clause='13.2 step 16', grp=I)
 ref('i:function.prototype', 'constructor', 'i:function', '13.2 step 17', attrs='TFT')
 # 15.3.2.1 new Function(p1, p2, body) -> 13.2
-obj('i:functionNew', 'Function', 'Function.prototype', js="(new Function('a', 'b', 'c', 'return c'))", callable=True,
+obj('i:functionNew', 'Function', 'Function.prototype', mk='function-object', js="(new Function('a', 'b', 'c', 'return c'))", callable=True,
     ctor=True, call="F(4, 5, 6) + '|' + CLS(new F())", exp='6|Object', clause='15.3.2.1', grp=I)
 row('i:functionNew', 'length', 'length', v=val(3), clause='15.3.2.1 / 15.3.5.1')
 row('i:functionNew', 'prototype', 'object', attrs='TFF', target='i:functionNew.prototype', clause='15.3.5.2')
@@ -558,10 +574,15 @@ ref('i:functionNew.prototype', 'constructor', 'i:functionNew', '13.2 step 17', a
 obj('i:bound', 'Function', 'Function.prototype', js='(function(a, b, c){ return this.k + a + b }).bind({k:1}, 2)',
     callable=True, call="F(3) + '|' + (new F(3) instanceof Object)", exp='6|true', clause='15.3.4.5', grp=I)
 row('i:bound', 'length', 'length', v=val(2), clause='15.3.4.5 step 15-16')
-row('i:bound', 'prototype', 'absent', clause='15.3.4.5 NOTE / 15.3.5.2 NOTE')
+row('i:bound', 'prototype', dev('D14_bound_function_has_prototype', 'unlisted-object', 'absent'), attrs='TFF',
+    clause='15.3.4.5 NOTE / 15.3.5.2 NOTE')
+# 15.3.4.5 steps 20, 21: caller and arguments are accessors {[[Get]]: thrower, [[Set]]: thrower, ~e, ~c}
+for n in ['caller', 'arguments']:
+    row('i:bound', n, dev('D14_bound_function_caller_arguments_not_throwers', 'value', 'thrower'), attrs='FFF',
+        clause='15.3.4.5 step 20-21 / 13.2.3')
 # 10.6 arguments object (non-strict): [[Class]] "Arguments", [[Prototype]] Object.prototype,
 # length {w,~e,c}, indices {w,e,c}, callee {w,~e,c}
-obj('i:argsFn', 'Function', 'Function.prototype', js='(function(a){ return arguments })', callable=True, ctor=True,
+obj('i:argsFn', 'Function', 'Function.prototype', mk='function-object', js='(function(a){ return arguments })', callable=True, ctor=True,
     clause='13.2', grp=I)
 row('i:argsFn', 'length', 'length', v=val(1), clause='13.2 step 15 / 15.3.5.1')
 obj('i:arguments', 'Arguments', 'Object.prototype', js="REG['i:argsFn'](5, 6)", clause='10.6', grp=I)
@@ -570,7 +591,7 @@ element('i:arguments', '0', 5, 'TTT', '10.6 step 11.b')
 element('i:arguments', '1', 6, 'TTT', '10.6 step 11.b')
 ref('i:arguments', 'callee', 'i:argsFn', '10.6 step 13.a', attrs='TFT')
 # a function provided by the host through the public Go API (global.go newNativeFunction): a Function object
-obj('i:hostFunction', 'Function', 'Function.prototype', js='HOSTFN', callable=True, call="F(20, 22)", exp=42,
+obj('i:hostFunction', 'Function', 'Function.prototype', mk='function-object', js='HOSTFN', callable=True, call="F(20, 22)", exp=42,
     clause='15 (built-in function objects) / 15.3.5', grp=I)
 
 # for-in (12.6.4) over ordinary objects: own enumerable properties, then those of the prototype chain
@@ -617,7 +638,7 @@ def main():
     w('D(x) == x \\in Dev')
     w('')
     w('Objs == <<')
-    ok = ['id', 'js', 'vo', 'vn', 'cls', 'proto', 'callable', 'ctor', 'ext', 'call', 'callexp', 'clause', 'grp']
+    ok = ['id', 'js', 'vo', 'vn', 'cls', 'proto', 'callable', 'ctor', 'ext', 'call', 'callexp', 'clause', 'grp', 'mk']
     w(',\n'.join('  ' + rec(o, ok) for o in OBJS))
     w('>>')
     w('')
